@@ -92,6 +92,27 @@ theorem C04_entry_paths (cfg : StructCfg) (pathOpen ks : Bytes) (k v : GoVal) (r
       = (validate cfg (pathOpen ++ ks ++ [93]) v true (st.mark 1) >>= fun st1 => entriesLoop cfg pathOpen rest st1) := by
   rw [entriesLoop]; simp [hk]; rfl
 
+/-- a key of interface type is named by its dynamic value: the entries `1` and `"1"` of a `map[interface{}]T` are both
+reported under `…[1]` — two entries, each visited once under its rendering (never merged, never skipped) -/
+theorem C04_iface_key_named_by_value (ext : Ext) (t : Bytes) (bits : Nat) (z : Int) (s : Bytes) :
+    keyStr ext (.iface t (some (.int bits z))) = .ok (intToBytes z) ∧
+    keyStr ext (.iface t (some (.str s))) = .ok s ∧
+    keyStr ext (.int bits z) = .ok (intToBytes z) ∧ keyStr ext (.str s) = .ok s := by
+  simp [keyStr, keyStrScalar, pure, Except.pure]
+
+theorem C04_both_colliding_entries_visited (cfg : StructCfg) (pathOpen : Bytes) (t : Bytes) (v1 v2 : GoVal) (rest : Entries) (st : WSt) :
+    entriesLoop cfg pathOpen (.cons (.iface t (some (.int 64 1))) v1 (.cons (.iface t (some (.str [49]))) v2 rest)) st
+      = (validate cfg (pathOpen ++ [49] ++ [93]) v1 true (st.mark 1) >>= fun st1 =>
+         validate cfg (pathOpen ++ [49] ++ [93]) v2 true (st1.mark 1) >>= fun st2 => entriesLoop cfg pathOpen rest st2) := by
+  have h1 : keyStr cfg.ext (.iface t (some (.int 64 1))) = .ok [49] := by
+    simp [keyStr, keyStrScalar, pure, Except.pure]
+    try decide
+  have h2 : keyStr cfg.ext (.iface t (some (.str [49]))) = .ok [49] := by
+    simp [keyStr, keyStrScalar, pure, Except.pure]
+  rw [C04_entry_paths cfg pathOpen [49] _ v1 _ st h1]
+  congr 1
+  all_goals (funext st1; rw [C04_entry_paths cfg pathOpen [49] _ v2 _ st1 h2])
+
 /-! non-vacuity: a two-level object; the inner violation is reported under `Outer.In.A` -/
 example :
     let inner : GoVal := .struct (b! "main.In") (b! "In") false (.cons (b! "A") true false [(b! "valid", b! "required")] (.str []) (.cons (b! "B") true false [] (.int 0 1) .nil))
